@@ -95,6 +95,15 @@ def concretise(c, rnd):
     r = geom.ref_element(c["refkind"], c["ref"], "r", rnd)
     ref = rnd.choice(["#r", "^"])
     k = c["kind"]
+    if f == "prevpending":
+        b = c["ref"]
+        gap = " " + q(c["gap"])
+        first = '<rect id="a" x="-40" y="-40" width="3" height="3"/>'
+        pend = f'<rect id="r" xy="#anchor" wh="{q(b["x2"] - b["x1"])} {q(b["y2"] - b["y1"])}"/>'
+        subj = f'<rect id="s" xy="^|{c["dir"]}{gap}" {geom.size_attrs("rect", c["w"], c["h"], rnd)}/>'
+        more = rnd.choice(["", f'<rect id="s2" xy="^|h 1" wh="1"/>'])
+        anchor = f'<point id="anchor" xy="{q(b["x1"])} {q(b["y1"])}"/>'
+        return f"<svg>{first}{pend}{subj}{more}{anchor}</svg>"
     if f == "prevdefer":
         gap = " " + q(c["gap"])
         other = '<rect id="b" x="-30" y="40" width="2" height="2"/>'
